@@ -172,7 +172,7 @@ CTYPES = (
     ("text", "html", {"charset": "utf8", "x": "y"}),
     ("video", "mp4", {"codecs": "avc1.42E01E, mp4a.40.2"}),
     ("text", "csv", {"delimiter": ",", "header": "x;y=z"}),
-    ("text", "x-log", {"charset": "utf8", "source": "C:\\temp\\run.log", "title": 'the "big" dump'}),
+    ("text", "x-log", {"charset": "utf8", "source": "C:\\temp\\logs\\", "title": 'the "big" dump'}),   # (a value that ends in a backslash, another parameter after it)
     ("text", "plain", {"charset": "rot13"}),      # a codec Python knows, but not one that decodes bytes to text
 )
 
